@@ -178,6 +178,8 @@ class ConcPart(Part):
 
     def run(self, prog):
         from . import conc
+        if self.prop not in ("C08", "C16") and "followups" not in prog["knobs"]:
+            prog["knobs"]["followups"] = "cheap"
         res = conc.run_conc(prog)
         if "preempt" not in prog and res.stats.get("preempt") is not None and res.violations:
             # make the failing schedule explicit so that replay / shrinking are pure functions of the file
